@@ -193,6 +193,20 @@ func (w *c12World) mutate(op *c12Op, c *rtCall, h *hon) *served {
 		o.Kind = fmt.Sprintf("status.%d", o.Status)
 		raw = h.body()
 		fail()
+		if t.Chance(1, 2) {
+			// headers are legal on every status: a server that sheds load says when to come back - in a moment, or never
+			// mind when (a client that takes this as an invitation to ask again on its own still has to report what it is
+			// told the second time)
+			o.Header.Set("Retry-After", []string{"0", "1", "5", "0", "120"}[t.Intn(5)])
+			if o.Status != 429 && o.Status != 503 && t.Chance(1, 2) {
+				o.Status = []int{429, 503}[t.Intn(2)]
+				if o.Status == h.status {
+					o.Status = 503
+				}
+				o.Kind = fmt.Sprintf("status.%d", o.Status)
+			}
+			o.Kind += "+retry-after"
+		}
 	case "header":
 		switch t.Intn(8) {
 		case 5:
